@@ -360,7 +360,7 @@ func runC03(c *core.Ctx) {
 	nrand := c.Pick(20000, 400000)
 	upaths := []string{"a", "b", "d/a", "d/b", "d/e/a", "f.c", "e/a", "dx/a"}
 	hashes := []ref.HashObj{h1, h2, h3, h4}
-	pats := []string{"*", "a", "b", "d/*", "d/?", "?", "*.c", "d/e/*", "[ab]", "d/[^a]", "*/a", "e/*", "f.c", "d*", "\\a", "f\\.c*", "d\\/*", "f\\.*", "\\d*", "[^a][ab]", "d/[^b][a]*"}
+	pats := []string{"*", "a", "b", "d/*", "d/?", "?", "*.c", "d/e/*", "[ab]", "d/[^a]", "*/a", "e/*", "f.c", "d*", "\\a", "f\\.c*", "d\\/*", "f\\.*", "\\d*", "[^a][ab]", "d/[^b][a]*", "[*a]", "d/[b*]", "[^*]", "f[.*]c", "d/[^*b]", "[a-b*]"}
 	prefixes := []string{"d", "d/e", "e", "dx", "d/", "f"}
 	ra, rr := int64(0), int64(0)
 	for i := 0; i < nrand; i++ {
